@@ -27,7 +27,7 @@ CHECKS = {
    "token scan works on plaintext backends; statuses in any heuristic list are treated as storable", "DESIGN.md 4 C06"),
  "C07": T("exploration", RM + "token-epoch monitor: after a successful unsafe exchange no body stored earlier for the equivalent target (or a same-origin URI named by Location/Content-Location) may come back unvalidated; random histories mixing methods",
    "Negative half on every exchange of random histories.", "sequential histories only", "DESIGN.md 4 C07"),
- "C08": T("exploration", RM + "scenario oracle over validation chains (304 with header updates / full 200, foreground and stale-while-revalidate background, several variants): follow-ups inside the new lifetime must come from the store with the right body, header block and restarted Age",
+ "C08": T("exploration", RM + "scenario oracle over validation chains (304 with header updates / full 200, foreground and stale-while-revalidate background, several variants): follow-ups inside the new lifetime must come from the store with the right body, header block and restarted Age; an inflight part in which a reload replaces the representation while a slow background validation of it is in flight (the late answer must not bring the replaced one back, nor put its header block on the new body)",
    "The generator knows what must be served after each validation; any origin contact, wrong body, stale header block, Content-Length/hop-by-hop merge, non-restarted Age or lost variant is a violation.",
    "scripted origin; +-1..2 s tolerance on Age", "DESIGN.md 4 C08"),
  "C09": T("exploration", RM + "scenario oracle: store, non-invalidating noise, then an equivalent request (URI and header spellings the cache documents) inside the lifetime must be answered from the store without origin contact; memory, fs, encrypted fs and reopened fs backends",
@@ -48,7 +48,7 @@ CHECKS = {
  "C13": T("fault_enumeration", RM + "scenario oracle over the full grid placement x window x staleness x failure kind (transport error, every status 400-599) x excluding directive, plus windows too large to represent; the scripted origin fails the validation and the result is compared with what the statement prescribes",
    "Inside the window with an eligible failure and no must-revalidate / no-cache the stored response must come back STALE with a correct Age; otherwise the origin's reply or the error.",
    "staleness within 1 s of N (and within the failure's latency) is not judged", "DESIGN.md 4 C13"),
- "C14": T("exploration", "model-based runtime checking: every result of Set/Get/Delete/Keys (and of the maintenance HTTP handlers) compared with an in-harness map over adversarial key sets (incl. keys nested deeper than PATH_MAX) and backend configurations incl. reopen; porcupine linearizability check for concurrent memory-backend histories; disjoint-key concurrency on fs under the race detector",
+ "C14": T("exploration", "model-based runtime checking: every result of Set/Get/Delete/Keys (and of the maintenance HTTP handlers) compared with an in-harness map over adversarial key sets (incl. keys nested deeper than PATH_MAX) and backend configurations incl. reopen; porcupine linearizability check for concurrent memory-backend histories; disjoint-key concurrency on fs under the race detector; a timeout-isolation part (1 ns operation timeout, caller overwrites its buffer after Set returned)",
    "Any result that differs from the map (wrong bytes, error on a legal key, missing ErrNotExist, wrong listing, aliasing with caller buffers) is a violation.",
    "keys up to about 6 kB (deeper than PATH_MAX); keys not addressable through an HTTP path segment are not judged via the API", "DESIGN.md 4 C14"),
  "C15": T("fault_enumeration", "porcupine linearizability checking of recorded concurrent fs histories with self-describing values (plain, encrypted and update_mtime configurations; race detector on; a Get error other than not-exist is a violation there); child processes whose writes are cut at EVERY byte by RLIMIT_FSIZE; writers killed by timed SIGKILL or strace signal injection at syscall boundaries, with the on-disk states seen recorded; after every cut / kill the reopened backend must list consistently with Get and read a later, shorter Set back exactly; the same cut applied under a real transport",
@@ -57,7 +57,7 @@ CHECKS = {
  "C17": T("fault_enumeration", "tamper enumeration on the real backend files (every byte position x masks, every truncation, extensions, block swaps, multi-byte edits, replacement by another entry's file written with the same key) with Get as the oracle; plaintext-window / nonce / ciphertext-equality scan of every file written through every configuration path, also under overlapping writers (race detector on); unusable keys x configuration paths; tampering under a real transport",
    "A tampered file that yields data, plaintext or a repeated nonce on disk, a wrong key yielding data, or an open without a usable key is a violation.",
    "tampering is judged through Get only", "DESIGN.md 4 C17"),
- "C19": T("exploration", RM + "footprint monitor on the recording store: a finite request alphabet repeated 4*U*(1+H*V) rounds against origins using Vary ('*', alternating sets), validation, background refresh and unsuccessful POSTs; key count and index sizes compared with explicit bounds at R/4, R/2, R; emptiness after invalidation",
+ "C19": T("exploration", RM + "footprint monitor on the recording store: a finite request alphabet repeated 4*U*(1+H*V) rounds against origins using Vary ('*', alternating sets, alternation with '*', Vary on the validator the cache adds), validation, background refresh and unsuccessful POSTs; key count and index sizes compared with explicit bounds at R/4, R/2, R; emptiness after invalidation, also after a reload whose reply changed the Vary field",
    "Exceeding U*(1+H*V) keys or H*V index records, or keys left after a successful unsafe request on a store holding only the target's keys, is a violation.",
    "a leak slower than one record per round would need more rounds", "DESIGN.md 4 C19"),
  "C20": T("exploration", RM + "scenario oracle over the full grid latency x background outcome x timeout setting x caller context x validators: foreground duration, number and conditionality of background calls, the exact instant the background request is released, goroutines with repository frames after quiescence; a store-faults part repeats the judgments with one store operation after the entry went stale failing in turn",
